@@ -35,6 +35,9 @@ SHAPES = {
     # an alias that silences a library with contextlib.redirect_stdout while its neighbour starts: the
     # temporary stream must not end up as "the session's stream"
     "$(S|B);$(A)": ("pipe-then-capture", [([("silence", 2), b"a\n"], 0), ("pass", 0)]),
+    # a non-final alias that leaves its output in the stream wrapper (no flush of its own): xonsh's final
+    # flush must happen before anybody may consider the stage finished
+    "$(L|B)": ("stdout", [(["noflush", b"a\n", b"b\n"], 0), ("pass", 0)]),
     # several views of ONE pipeline object in a row: iterate its lines first, then ask for the rest
     "!(A)-iterate-then-views": ("objectiter", [([b"a\n", b"b\n"], 2)]),
 }
@@ -96,7 +99,10 @@ def _mk_alias(s, spec, idx):
     chunks, rc = spec
 
     def producer(args, stdin=None, stdout=None, stderr=None):
+        lazy = "noflush" in chunks
         for c in chunks:
+            if c == "noflush":
+                continue
             s.point()
             if c == "close":
                 stdout.close()
@@ -111,7 +117,8 @@ def _mk_alias(s, spec, idx):
                 return c[1]  # the output handed back as the return value (code 0)
             else:
                 stdout.write(c.decode("latin1"))
-                stdout.flush()
+                if not lazy:
+                    stdout.flush()
         s.point()
         return rc
 
@@ -326,6 +333,20 @@ def run_part(ctx):
         total["capped"] = total["capped"] or st.capped
         per[name] = st.executions
         ctx.log(f"T2 {name}: {st.executions} schedules, {st.steps} steps, max {st.max_choice_points} choice points, {len(viols)} raw violations")
+    if ctx.thorough:
+        # the order of "publish the return code" and "flush what the alias left in its stream wrapper":
+        # on the narrow alphabet of lines that flush, publish/poll the code, join or close, one more
+        # deviation is affordable
+        narrow = pysched.shared_lines(_traced(filtered=False), [r"returncode", r"safe_flush|\.flush\(", r"\.poll\(|\.join\(|is_alive", r"close_writer|close_reader|_safe_close|safe_fdclose", r"os\.read|queue\.(put|get)", r"time\.sleep|sleep\("])
+        _SHAPE = "$(L|B)"
+        viols, st = pysched.explore(_body, _check, narrow, bound, ctx, setup=_setup, max_execs_per_shard=200000, max_steps=60000, budget_s=1200)
+        ctx.add_violations([dict(v, key=v["key"] + ":flush-alphabet") for v in viols])
+        total["executions"] += st.executions
+        total["steps"] += st.steps
+        total["sigs"] |= st.sigs
+        total["capped"] = total["capped"] or st.capped
+        per["$(L|B) [flush alphabet]"] = st.executions
+        ctx.log(f"T2 $(L|B) (flush alphabet, deviation bound {bound}): {st.executions} schedules, {st.steps} steps, max {st.max_choice_points} choice points, {len(viols)} raw violations")
     pysched.COST_MODE = "preemption"
     ctx.sample({"tier": "T2", "shape": names[0], "stages": [[c.decode("latin1") if isinstance(c, bytes) else str(c) for c in (st[0] if isinstance(st[0], list) else [st[0]])] for st in SHAPES[names[0]][1]], "preemption_bound": bound})
     return {
